@@ -191,6 +191,9 @@ PROPS = {
         "kani_bounded_thorough": [],
         "design_ref": "DESIGN.md section 5 / C15",
         "not_covered": [
+            "serde-derive generated Deserialize impls (e.g. the `#[serde(untagged)]` variants of get_info::Version / Extension, which buffer an "
+            "arbitrary item in serde's private Content tree: a hunt sub-agent showed about 1 MiB pre-allocated per nesting level for a 2.3 kB "
+            "getInfo response -- a defect of this property's kind that no check here decides)",
             "public_key_der_from_cose_key / private_key_from_cose_key are covered (unit cosek); the list visitors also for termination (unit serdecap); AuthenticatorData::from_slice is covered only for its own slicing / conversions / allocation (the only allocation sized by input is the credential id, at most 65535 bytes) over the reader models of unit ad; CBOR (ciborium) / JSON (serde_json) / COSE (coset) decoders, "
             "public_key_der_from_cose_key, valid_fingerprint: bodies outside both verifiers' reach",
             "CPU time / 'out of proportion' cost: no cost semantics in a contract",
